@@ -6,7 +6,7 @@
 //!   micros = CPU time of the parsing thread (lex + parse + sink)
 //!   bad  = number of syntax errors whose offset/range is not within 0..=len (or start > end)
 //!   errs = "lo-hi,lo-hi,..." (Missing{offset} as offset-offset)
-//!   events: "S<NodeKind> F A ..."; tokens: "<TokenKind>:<len> ..."; tree: "(Kind lo hi kids..)" tokens "[Kind lo hi]"
+//!   events: "S<NodeKind> F A ..."; tokens: "<TokenKind>:<len>[:<text of rawptr|import|mod|_>] ..."; tree: "(Kind lo hi kids..)" tokens "[Kind lo hi]"
 use std::fmt::Write;
 use syntax::{SyntaxElement, SyntaxNode, SyntaxTree};
 
@@ -107,11 +107,23 @@ fn one_case(line: &str) -> String {
         // events + tokens first (parser only, no sink), so that they are available when the sink panics
         let mut extra = String::new();
         if full {
+            // tokens first: lexing always terminates, the parser may not
+            let tokens = lexer::lex(&text);
+            let mut tk = String::new();
+            for i in 0..tokens.len() {
+                let r = tokens.range(i);
+                write!(tk, "{:?}:{}", tokens.kind(i), u32::from(r.end()) - u32::from(r.start())).unwrap();
+                let t = &text[usize::from(r.start())..usize::from(r.end())];
+                if tokens.kind(i) == syntax::TokenKind::Ident && matches!(t, "rawptr" | "import" | "mod" | "_") {
+                    write!(tk, ":{}", t).unwrap();
+                }
+                tk.push(' ');
+            }
             let e = std::panic::catch_unwind(|| {
                 parser::verif::reset();
                 let tokens = lexer::lex(&text);
                 let (evs, _n) = parser::verif::events(&tokens, &text, repl);
-                let mut s = String::from(" | ");
+                let mut s = String::new();
                 for (tag, kind) in &evs {
                     match tag {
                         0 => write!(s, "S{} ", kind).unwrap(),
@@ -119,16 +131,11 @@ fn one_case(line: &str) -> String {
                         _ => s.push_str("A "),
                     }
                 }
-                s.push_str("| ");
-                for i in 0..tokens.len() {
-                    let r = tokens.range(i);
-                    write!(s, "{:?}:{} ", tokens.kind(i), u32::from(r.end()) - u32::from(r.start())).unwrap();
-                }
                 s
             });
             extra = match e {
-                Ok(s) => s,
-                Err(e) => format!(" | PANIC-IN-PARSER:{} | ", panic_msg(e)),
+                Ok(s) => format!(" | {}| {}", s, tk),
+                Err(e) => format!(" | PANIC-IN-PARSER:{} | {}", panic_msg(e), tk),
             };
         }
         let r = std::panic::catch_unwind(|| {
